@@ -51,6 +51,14 @@ func (c split) Recv() ([]byte, error) {
 			continue // incomplete line
 		}
 		line := buf.Bytes()
+		if err != nil {
+			// The input ended without a split byte, so there is no delimiter
+			// to strip: report what was read, intact, with the error.
+			if len(line) == 0 {
+				return nil, err
+			}
+			return line, err
+		}
 		if n := len(line) - 1; n >= 0 {
 			return line[:n], err
 		}
